@@ -34,13 +34,23 @@ func (Helper) CheckProveRoot(*types.BlockHeader) (bool, error) {
 func (Helper) VerifyNewBlock(*types.BlockHeader, *types.BlockHeader) (bool, error) { return true, nil }
 func (Helper) VerifyBlockHeader(*types.BlockHeader) (bool, error)                   { return true, nil }
 func (Helper) VerifyGroupSign([]byte, common.Hash, []byte) (bool, error)            { return true, nil }
-func (Helper) CheckGroup(*types.Group) (bool, error)                                { return true, nil }
+func (Helper) CheckGroup(g *types.Group) (bool, error) {
+	if h := CheckGroupHook; h != nil {
+		return h(g)
+	}
+	return true, nil
+}
 func (Helper) VerifyMemberInfo(*types.BlockHeader, *types.BlockHeader) (bool, error) {
 	return true, nil
 }
 func (Helper) VerifyGroupForFork(*types.Group, *types.Group, *types.Group, *types.Block) (bool, error) {
 	return true, nil
 }
+
+// CheckGroupHook, when set, is called by the stub consensus helper inside AddGroup's group check - the one
+// point of AddGroup at which real nodes spend time (signature verification) outside any lock. A test can block
+// there to own the interleaving of two concurrent group-chain operations.
+var CheckGroupHook func(*types.Group) (bool, error)
 
 type Node struct {
 	Dir     string
